@@ -77,15 +77,24 @@ fn run_case(case: &str) -> String {
     }
 }
 
-fn gen_token(r: &mut Rng) -> i64 {
+/// Tokens for the case's own (n, msb): boundary values, tokens within +-2 of a shard boundary of
+/// THIS sharder (biased, shifted value k * 2^64 / n, any high bits in the ignored part), random.
+fn gen_token(r: &mut Rng, n: u16, msb: u8) -> i64 {
     match r.below(8) {
         0 => *r.pick(&[i64::MAX, i64::MIN + 1, 0, -1, 1, i64::MAX - 1, i64::MIN + 2]),
-        1 => {
-            // near a shard boundary for some n: token ~ k * 2^64 / n - 2^63
-            let n = r.range(1, 300) as i128;
-            let k = r.range(0, n as u64) as i128;
-            let t = (k << 64) / n - (1i128 << 63) + r.range(0, 4) as i128 - 2;
-            t.clamp(i64::MIN as i128 + 1, i64::MAX as i128) as i64
+        1..=3 => {
+            // shifted = (biased << msb) mod 2^64 must be close to ceil(k * 2^64 / n)
+            let k = r.range(0, n as u64) as u128;
+            let boundary = ((k << 64) + n as u128 - 1) / n as u128; // first shifted value of shard k
+            let delta = r.range(0, 4) as i128 - 2;
+            let shifted = ((boundary as i128 + delta).rem_euclid(1i128 << 64)) as u128;
+            // biased = (high bits arbitrary) | (shifted >> msb), low bits of shifted that do not come
+            // from biased are lost: only multiples of 2^msb are reachable; round.
+            let low = (shifted >> msb) as u64;
+            let high = if msb == 0 { 0 } else { r.u64() << (64 - msb as u32) };
+            let biased = high | low;
+            let t = (biased.wrapping_sub(1u64 << 63)) as i64;
+            if t == i64::MIN { i64::MAX } else { t }
         }
         _ => {
             let t = r.i64();
@@ -177,12 +186,40 @@ fn main() {
                 }
             }
         }
-        for msb in [0u8, 1, 12, 63] {
-            for t in [i64::MAX, i64::MIN + 1, 0, -1, 1] {
+    }
+    // shard_of: every n <= 64 x every msb 0..=63 x fixed boundary tokens + the first/last token of
+    // every shard of that sharder (msb 0) resp. 4 directed near-boundary tokens (msb > 0)
+    for n in 1..=64u16 {
+        for msb in 0..=63u8 {
+            let mut toks: Vec<i64> = vec![i64::MAX, i64::MIN + 1, 0, -1, 1];
+            if msb == 0 {
+                for k in 0..=n as u128 {
+                    let b = ((k << 64) + n as u128 - 1) / n as u128;
+                    for d in [-1i128, 0] {
+                        let sh = (b as i128 + d).rem_euclid(1i128 << 64) as u64;
+                        let t = sh.wrapping_sub(1u64 << 63) as i64;
+                        toks.push(if t == i64::MIN { i64::MAX } else { t });
+                    }
+                }
+            } else if exh_n >= 40 || msb % 8 == 4 {
+                for _ in 0..4 {
+                    toks.push(gen_token(&mut r, n, msb));
+                }
+            }
+            for t in toks {
                 let c = format!("S {} {} {}", hex_u(n as u128), hex_u(msb as u128), hex_i(t as i128));
                 let o = run_case(&c);
                 out.case(&c, &o);
             }
+        }
+    }
+    // ShardInfo: the accept/reject boundary shard = nr-1 / nr / nr+1, nr = 0, directed
+    for nr in [0u32, 1, 2, 255, 256, 65535] {
+        for shard in [nr.saturating_sub(1), nr, nr + 1] {
+            if shard > 65536 { continue; }
+            let c = format!("R V:{} V:{} V:{}", enc_str(&shard.to_string()), enc_str(&nr.to_string()), enc_str("12"));
+            let o = run_case(&c);
+            out.case(&c, &o);
         }
     }
     for _ in 0..a.n {
@@ -190,7 +227,7 @@ fn main() {
             0..=3 => {
                 let n = gen_n(&mut r);
                 let msb = if r.chance(1, 4) { *r.pick(&[0u8, 12, 63, 62, 1]) } else { r.below(64) as u8 };
-                format!("S {} {} {}", hex_u(n as u128), hex_u(msb as u128), hex_i(gen_token(&mut r) as i128))
+                format!("S {} {} {}", hex_u(n as u128), hex_u(msb as u128), hex_i(gen_token(&mut r, n, msb) as i128))
             }
             4..=6 => {
                 let n = gen_n(&mut r);
